@@ -78,6 +78,10 @@ fn worker(args: &[String]) -> i32 {
     let h = &hs[hidx];
     let mut b = h.bounds.clone();
     b.shard = (shard, nshards);
+    if tier == "thorough" && b.cap_s == 0 {
+        // Every thorough harness has a wall cap; a capped harness is reported as such.
+        b.cap_s = std::env::var("A10MC_CAP_S").ok().and_then(|s| s.parse().ok()).unwrap_or(900);
+    }
     let t0 = std::time::Instant::now();
     let stats = (h.run)(&b);
     let wall = t0.elapsed().as_secs_f64();
@@ -101,6 +105,7 @@ fn worker(args: &[String]) -> i32 {
         "pruned": stats.pruned,
         "dev_skipped": stats.dev_skipped,
         "capped": stats.capped,
+        "bound_completed": stats.bound_completed,
         "per_depth": stats.per_depth,
         "found": found,
         "samples": stats.samples,
@@ -280,6 +285,8 @@ fn check(prop: &str, tier: &str) -> i32 {
         let mut h_states: HashSet<u64> = HashSet::new();
         let mut h_pruned = 0u64;
         let mut h_maxd = 0u64;
+        let mut h_capped = false;
+        let mut h_bound: Option<i64> = None;
         let mut per_depth: Vec<u64> = Vec::new();
         // Watchdog: a worker that exceeds the deadline is killed (machinery failure).
         let deadline = std::time::Instant::now() + std::time::Duration::from_secs(if tier == "quick" { 240 } else { 4 * 3600 });
@@ -333,6 +340,10 @@ fn check(prop: &str, tier: &str) -> i32 {
             h_pruned += v["pruned"].as_u64().unwrap_or(0);
             h_maxd = h_maxd.max(v["max_depth"].as_u64().unwrap_or(0));
             capped |= v["capped"].as_bool().unwrap_or(false);
+            h_capped |= v["capped"].as_bool().unwrap_or(false);
+            if let Some(b) = v["bound_completed"].as_i64() {
+                h_bound = Some(h_bound.map_or(b, |x| x.min(b)));
+            }
             for (d, c) in v["per_depth"].as_array().unwrap().iter().enumerate() {
                 if per_depth.len() <= d {
                     per_depth.resize(d + 1, 0);
@@ -389,6 +400,8 @@ fn check(prop: &str, tier: &str) -> i32 {
             "pruned_by_state_key": h_pruned,
             "max_depth": h_maxd,
             "nodes_per_depth": per_depth,
+            "wall_cap_hit": h_capped,
+            "preemption_bound_completed_by_all_workers": h_bound,
             "wall_s": th.elapsed().as_secs_f64(),
         }));
         states.extend(h_states);
